@@ -195,6 +195,65 @@ pub fn size_sweep<B: StarkField, E: FieldElement<BaseField = B>>(name: &str, log
     }
 }
 
+/// serial FFT at sizes beyond the full-comparison bound: each checked output entry is recomputed
+/// by Horner's rule (O(n) per entry), on a fixed spread of rows including the edges
+fn large_spot<B: StarkField, E: FieldElement<BaseField = B>>(name: &str, log_n: u32, s: &mut Sweep) {
+    let n = 1usize << log_n;
+    let tw = fft::get_twiddles::<B>(n);
+    let itw = fft::get_inv_twiddles::<B>(n);
+    let horner = |p: &[E], x: B| -> E {
+        let x = E::from(x);
+        p.iter().rev().fold(E::ZERO, |a, c| a * x + *c)
+    };
+    let p: Vec<E> = coeffs::<E>(n, &Coeffs::Counter);
+    let rows = |m: usize| -> Vec<usize> {
+        let mut r: Vec<usize> = (0..m).step_by((m / 90).max(1)).collect();
+        r.extend([1, 2, m / 2 - 1, m / 2, m / 2 + 1, m - 2, m - 1]);
+        r.sort();
+        r.dedup();
+        r
+    };
+    let mut check = |what: &str, got: Result<Vec<E>, mck::Panicked>, blowup: usize, offset: B, s: &mut Sweep| {
+        s.evals += 1;
+        s.nontrivial += 1;
+        let key = format!("{name}/n=2^{log_n}/{what}/blowup={blowup}");
+        match got {
+            Err(pn) => s.fail(format!("panic:{name}:{what}:{}", pn.location), key, format!("{name} {what} panicked at {} ({})", pn.location, pn.message)),
+            Ok(v) => {
+                let m = n * blowup;
+                if v.len() != m {
+                    return s.fail(format!("wrong:{name}:{what}:length"), key, format!("{name} {what}: {} values for a domain of {m}", v.len()));
+                }
+                let g = B::get_root_of_unity(m.trailing_zeros());
+                for r in rows(m) {
+                    let x = offset * g.exp((r as u64).into());
+                    if v[r] != horner(&p, x) {
+                        return s.fail(format!("wrong:{name}:{what}:large"), key, format!("{name} {what} at n = 2^{log_n}, blowup {blowup}: entry {r} differs from Horner evaluation at offset * g^{r}"));
+                    }
+                }
+            },
+        }
+    };
+    check("evaluate_poly", mck::catch(|| { let mut v = p.clone(); fft::evaluate_poly(&mut v, &tw); v }), 1, B::ONE, s);
+    check("serial_fft", mck::catch(|| { let mut v = p.clone(); fft::serial_fft(&mut v, &tw); v }), 1, B::ONE, s);
+    let blowups: &[usize] = if log_n <= 13 { &[2, 16, 32] } else { &[2] };
+    for &b in blowups {
+        for off in [B::GENERATOR, B::from(7u8)] {
+            check("evaluate_poly_with_offset", mck::catch(|| fft::evaluate_poly_with_offset(&p, &tw, off, b)), b, off, s);
+        }
+    }
+    // interpolation inverts evaluation (full comparison, no oracle cost)
+    s.evals += 2;
+    match mck::catch(|| { let mut v = p.clone(); fft::evaluate_poly(&mut v, &tw); fft::interpolate_poly(&mut v, &itw); v }) {
+        Ok(v) if v == p => {},
+        _ => s.fail(format!("wrong:{name}:interpolate_poly:large"), format!("{name}/n=2^{log_n}"), format!("{name}: interpolate_poly does not invert evaluate_poly at n = 2^{log_n}")),
+    }
+    match mck::catch(|| { let mut v = fft::evaluate_poly_with_offset(&p, &tw, B::from(7u8), 1); fft::interpolate_poly_with_offset(&mut v, &itw, B::from(7u8)); v }) {
+        Ok(v) if v == p => {},
+        _ => s.fail(format!("wrong:{name}:interpolate_poly_with_offset:large"), format!("{name}/n=2^{log_n}"), format!("{name}: interpolate_poly_with_offset does not invert evaluation at n = 2^{log_n}")),
+    }
+}
+
 /// conc build: the sizes that take the concurrent FFT paths, under every thread count and every
 /// single-region deviation of the controlled scheduler (engine E3); same oracle (naive DFT)
 #[cfg(feature = "conc")]
@@ -315,6 +374,32 @@ pub fn run(args: &Args) {
     }
     for (k, (e, n)) in per.iter().enumerate() {
         report.part(names[k], *e, *n, json!({"sizes": format!("2^1..2^{max_log}")}));
+    }
+    // large sizes: the whole output cannot be compared with an O(n^2) evaluation, but every output
+    // entry can be checked on its own by Horner's rule — all entries of a fixed spread of 96 rows
+    {
+        let top = if thorough { 17 } else { 15 };
+        let jobs: Vec<(usize, u32)> = (0..4).flat_map(|k| (max_log + 1..=top).map(move |l| (k, l))).collect();
+        let outs = mck::par_map(jobs.len(), |j| {
+            let (k, l) = jobs[j];
+            let mut s = Sweep::new();
+            match k {
+                0 => large_spot::<B64, B64>("f64", l, &mut s),
+                1 => large_spot::<B128, B128>("f128", l, &mut s),
+                2 => large_spot::<B64, CubeExtension<B64>>("f64^3", l, &mut s),
+                _ => large_spot::<B62, QuadExtension<B62>>("f62^2", l, &mut s),
+            }
+            s
+        });
+        let mut t = Sweep::new();
+        for o in outs {
+            t.merge(o);
+        }
+        report.part("large sizes (serial): evaluate / evaluate with offset (blowups 1, 2, 16, 32) / interpolate, spot-checked by Horner on 96 rows", t.evals, t.nontrivial, json!({"sizes": format!("2^{}..2^{top}", max_log + 1)}));
+        report.violations(t.viol);
+        for (c, n) in t.more {
+            report.count_more(&c, n);
+        }
     }
     report.sample(json!({"function": "evaluate_poly_with_offset", "field": "f64", "n": 64, "coefficients": "unit vector e_63", "offset": "GENERATOR", "blowup": 16, "oracle": "(offset * g^i)^63 for every i"}));
     report.sample(json!({"function": "infer_degree", "field": "f62", "n": 256, "degree": 255}));
